@@ -33,33 +33,118 @@ def cls(o):
     return "ok" if v == 0 else ("urgent" if v == 255 else "fail")
 
 
+MODES = ["n1", "n1", "n2", "L1", "I", "0n1", "dn1", "n3x"]
+# input errors placed after the items of the sequence: the text that follows the last complete item
+BAD_TAILS = [b"'", b'"', b"x '", b'y "', b"'open", b'"open two', b"a 'b c\n", b"'\n", b'z "\n']
+
+
+def shape_input(mode, n, rng):
+    """-> (options, initial args, stdin bytes, expected appended arguments per invocation) for n invocations"""
+    if mode == "n1":
+        return ["-n1"], [], b"".join(b"item%d\n" % i for i in range(n)), [[b"item%d" % i] for i in range(n)]
+    if mode == "n2":
+        items = [b"it%d" % i for i in range(2 * n - rng.choice([0, 1]))]
+        return ["-n", "2"], [], b" ".join(items) + b"\n", [items[i:i + 2] for i in range(0, len(items), 2)]
+    if mode == "n3x":
+        items = [b"it%d" % i for i in range(3 * n - rng.choice([0, 1, 2]))]
+        return ["-x", "-n", "3"], [], b"\n".join(items), [items[i:i + 3] for i in range(0, len(items), 3)]
+    if mode == "L1":
+        lines = [[b"l%d" % i, b"w%d" % i][:rng.choice([1, 2])] for i in range(n)]
+        return ["-L", "1"], [], b"".join(b" ".join(l) + b"\n" for l in lines), lines
+    if mode == "I":
+        lines = [b"line %d x" % i for i in range(n)]
+        return ["-I", "{}"], ["{}"], b"".join(l + b"\n" for l in lines), [[l] for l in lines]
+    if mode == "0n1":
+        items = [b"nul %d\n" % i for i in range(n)]
+        return ["-0", "-n1"], [], b"".join(i + b"\0" for i in items), [[i] for i in items]
+    if mode == "dn1":
+        items = [b"d%d" % i for i in range(n)]
+        return ["-d", ",", "-n", "1"], [], b",".join(items), [[i] for i in items]
+    raise ValueError(mode)
+
+
 def worker(job):
     k, seqs, seed = job
     st = Stats()
+    rng = common.rng_for(seed, "C19w", k)
     wd = common.mkscratch("C19w%d" % k)
     try:
         for seq in seqs:
-            data = b"".join(b"item%d\n" % i for i in range(len(seq)))
-            r = xref.run_xargs(wd, ["-n1"], [], data, script=",".join(seq))
+            mode = rng.choice(MODES)
+            opts, initial, data, want_args = shape_input(mode, len(seq), rng)
+            # one run in six: an input error (unterminated quote) follows the items; xargs' own errors give exit status 1 unless
+            # an invocation before it was fatal
+            tail = None
+            if mode in ("n1", "n2", "L1") and rng.random() < 0.17:
+                tail = rng.choice(BAD_TAILS)
+                data = data + tail
+            r = xref.run_xargs(wd, opts, initial, data, script=",".join(seq))
             st.inc("evaluations")
-            st.add("distinct", tuple(seq))
+            st.inc("mode:" + mode)
+            st.add("distinct", (mode, tuple(seq), tail))
             st.inc("child_invocations", len(r.invocations))
             for pos, o in enumerate(seq):
                 st.add("class_at_position", (cls(o), min(pos, 6)))
             want_rc, want_n = model(seq)
-            args_seen = [argv[-1] for _, argv in r.invocations]
-            ok_args = args_seen == [b"item%d" % i for i in range(len(args_seen))]
+            got_args = [list(argv) for _, argv in r.invocations]      # the recorder logs its arguments without argv[0]
+            ok_args = got_args == want_args[:len(got_args)]
+            detail = {"mode": mode, "options": opts, "stdin": data[:300], "outcomes": list(seq), "observed_exit": r.rc,
+                      "observed_invocations": len(r.invocations), "stderr": r.err[-200:]}
+            rp = {"options": opts, "initial": initial, "stdin": data, "outcomes": list(seq)}
+            if tail is not None:
+                st.inc("runs_with_input_error_after_the_items")
+                # how many invocations start before the reader meets the quote depends on read-ahead (0..n); the statement fixes
+                # the status: a fatal child outcome if one was reached, else 1
+                started = len(r.invocations)
+                rc_prefix, n_prefix = model(seq[:started])
+                fatal = rc_prefix in (124, 125)
+                want = rc_prefix if fatal else 1
+                if r.rc != want or r.timed_out or not ok_args or (fatal and started != n_prefix) or (not fatal and not r.err.strip()):
+                    st.violate("exit-status", None, dict(detail, expected_exit=want, input_error=tail), rp)
+                continue
             if r.rc != want_rc or len(r.invocations) != want_n or not ok_args or r.timed_out:
-                st.violate("exit-status", None, {"outcomes": list(seq), "expected_exit": want_rc, "observed_exit": r.rc,
-                                                 "expected_invocations": want_n, "observed_invocations": len(r.invocations),
-                                                 "stderr": r.err[-200:]}, {"outcomes": list(seq)})
-            if want_rc != 0 and want_rc != 123 and not r.err.strip():
-                pass
+                st.violate("exit-status", None, dict(detail, expected_exit=want_rc, expected_invocations=want_n,
+                                                     observed_args=got_args[:4]), rp)
             if st.c["evaluations"] % 97 == 1:
-                st.sample({"outcomes": list(seq), "exit": r.rc, "invocations": len(r.invocations)})
+                st.sample({"mode": mode, "outcomes": list(seq), "exit": r.rc, "invocations": len(r.invocations)})
     finally:
         common.force_rmtree(wd)
     return st
+
+
+def empty_input_cases(ctx):
+    """No arguments at all: without -r the command runs once and its outcome counts like any other; with -r (or -I) nothing runs."""
+    st = ctx.stats
+    wd = ctx.scratch()
+    inputs = [b"", b"\n", b"  \n\t\n", b" ", b"\n\n\n"]
+    for o in ["0", "1", "2", "3", "64", "125", "255", "k9", "k15", "k6"]:
+        for data in inputs:
+            for opts in ([], ["-n1"], ["-n", "3"], ["-L", "2"], ["-x"], ["-s", "4000"], ["-0"], ["-d", ","], ["-t"]):
+                if opts in (["-0"], ["-d", ","]) and data != b"":
+                    continue                     # with a delimiter a blank is an argument
+                for r_opt in ([], ["-r"], ["--no-run-if-empty"]):
+                    r = xref.run_xargs(wd, opts + r_opt, ["init"], data, script=o)
+                    st.inc("evaluations")
+                    st.inc("empty_input_runs")
+                    st.add("distinct", ("empty", o, data, tuple(opts), tuple(r_opt)))
+                    if r_opt:
+                        want_rc, want_n = 0, 0
+                    else:
+                        want_rc, want_n = model([o])
+                    st.inc("empty_input_outcome:" + cls(o) + ("(-r)" if r_opt else ""))
+                    argv_ok = all(list(argv) == [b"init"] for _, argv in r.invocations)
+                    if r.rc != want_rc or len(r.invocations) != want_n or not argv_ok or r.timed_out:
+                        st.violate("exit-status", None, {"case": "no arguments on input", "options": opts + r_opt, "stdin": data,
+                                                         "outcome": o, "expected_exit": want_rc, "observed_exit": r.rc,
+                                                         "expected_invocations": want_n, "observed_invocations": len(r.invocations),
+                                                         "stderr": r.err[-200:]},
+                                   {"options": opts + r_opt, "stdin": data, "outcomes": [o]})
+        # -I: empty input runs nothing
+        r = xref.run_xargs(wd, ["-I", "{}"], ["{}"], b"", script=o)
+        st.inc("evaluations")
+        if r.rc != 0 or r.invocations:
+            st.violate("exit-status", None, {"case": "-I with empty input", "observed_exit": r.rc, "invocations": len(r.invocations)},
+                       {"options": ["-I", "{}"], "stdin": b""})
 
 
 def special_cases(ctx):
@@ -102,6 +187,12 @@ def special_cases(ctx):
         ("usage -d xx", ["-d", "xx"], None, b"a\n", 1, 0),
         ("usage unknown option", ["--no-such-option"], None, b"a\n", 1, 0),
         ("unterminated single quote", [], None, b"a 'b c\n", 1, None),
+        ("opening single quote is the last byte", [], None, b"a b '", 1, 0),
+        ("opening double quote is the last byte", [], None, b'a b "', 1, 0),
+        ("a lone double quote", [], None, b'"', 1, 0),
+        ("a lone single quote, -r", ["-r"], None, b"'", 1, 0),
+        ("opening quote then newline at the end", [], None, b"a '\n", 1, 0),
+        ("opening quote last byte, -L1", ["-L", "1"], None, b'a\n"', 1, None),
         ("unterminated double quote", ["-n1"], None, b'ok\n"never closed\n', 1, None),
         ("argument too long for -s", ["-s", str(len(common.REC) + 1 + 6)], None, b"abcdefghijklmnop\n", 1, 0),
         ("argument too long for -s after ok ones", ["-s", str(len(common.REC) + 1 + 6)], None, b"ab\ncd\nabcdefghijklmnop\nzz\n", 1, None),
@@ -119,9 +210,12 @@ def special_cases(ctx):
 
 def run(ctx):
     K = ctx.scale(5, 7)
-    ctx.rule = ("xargs -n1 over k items with the recorder scripted per invocation: exhaustive over the four outcome classes "
+    ctx.rule = ("xargs over k invocations (batched by -n1, -n2, -x -n3, -L1, -I, -0 -n1 or -d , -n1; the arguments of every invocation checked) "
+                "with the recorder scripted per invocation: exhaustive over the four outcome classes "
                 "(exit 0, exit 1..125, exit 255, death by signal) for every length <= %d, concrete values varied; random sequences "
-                "up to length 12; plus missing / non-executable command and usage/input errors; distinct = outcome sequence" % K)
+                "up to length 12; an unterminated quote after the items in one run in six (status 1 unless a fatal outcome came first); input "
+                "with no arguments at all x every outcome x -r or not; plus missing / non-executable command and usage/input errors; "
+                "distinct = (mode, outcome sequence, input error)" % K)
     ctx.assumptions = ["child statuses 126..254 not judged (statement covers 1..125 and 255)"]
     assert model(["0", "3", "0"]) == (123, 3) and model(["1", "255", "0"]) == (124, 2) and model(["k9"]) == (125, 1) and model([]) == (0, 0)
     rng = common.rng_for(ctx.seed, "C19")
@@ -138,4 +232,9 @@ def run(ctx):
     nw = common.NCPU
     ctx.pmap(worker, [(k, seqs[k::nw], ctx.seed) for k in range(nw)])
     special_cases(ctx)
+    empty_input_cases(ctx)
     ctx.require("special_cases", 10)
+    ctx.require("empty_input_outcome:fail", 10)
+    ctx.require("runs_with_input_error_after_the_items", 10)
+    for m in set(MODES):
+        ctx.require("mode:" + m, 5)
